@@ -246,3 +246,84 @@ Theorem psd_symm_is_gram {J} (G : J -> J -> R) : symm G -> psd G ->
 Proof.
   intros Gs Gp. exists (gram_space G Gs Gp), (fun a => [(1, a)]). apply gram_space_entry.
 Qed.
+
+(* ------------------------------------------------------------------ *)
+(* 4. the overlap matrix of the model is a Gram matrix                 *)
+(* ------------------------------------------------------------------ *)
+(* a basis function: (shell, segment, index of the Cartesian component in [comps_of]) *)
+Definition bidx : Type := (shell R * nat * nat)%type.
+Definition bsh (a : bidx) : shell R := fst (fst a).
+Definition bseg (a : bidx) : nat := snd (fst a).
+Definition bci (a : bidx) : nat := snd a.
+Definition bcomp (a : bidx) : Shell.comp := nth (bci a) (comps_of (bsh a)) (0, 0, 0)%nat.
+
+Definition bvalid (a : bidx) : Prop :=
+  wf_shell (bsh a) /\ pos_exps3 (bsh a) /\ (bseg a < nseg (bsh a))%nat /\ (bci a < length (comps_of (bsh a)))%nat.
+
+(* the function itself *)
+Definition chi (a : bidx) : R -> R -> R -> R := cfun (bsh a) (bseg a) (bcomp a).
+
+(* the numbers the model computes *)
+Definition Sov (a b : bidx) : R :=
+  Overlap.nth4 RK (bseg a) (bci a) (bseg b) (bci b) (overlap_block RK (bsh a) (bsh b)).
+Definition Tkin (a b : bidx) : R :=
+  Overlap.nth4 RK (bseg a) (bci a) (bseg b) (bci b) (kinetic_block RK (bsh a) (bsh b)).
+
+(* the linear combination sum_p c_p chi_{a_p} as a function *)
+Definition lcf (l : list (R * bidx)) (x y z : R) : R := lc (fun a => chi a x y z) l.
+
+Lemma overlap_pair_is_integral (a b : bidx) : bvalid a -> bvalid b ->
+  gint3 (fun x y z => chi a x y z * chi b x y z) (Sov a b).
+Proof.
+  intros [Wa [Pa [Hma Hia]]] [Wb [Pb [Hmb Hib]]].
+  exact (overlap_block_is_integral (bsh a) (bsh b) (bseg a) (bci a) (bseg b) (bci b) Wa Wb Pa Pb Hma Hia Hmb Hib).
+Qed.
+
+Theorem overlap_quadratic_form_is_integral (l : list (R * bidx)) :
+  (forall p, In p l -> bvalid (snd p)) ->
+  gint3 (fun x y z => lcf l x y z * lcf l x y z) (qf Sov l).
+Proof.
+  intro Hl.
+  refine (gint3_ext _ _ _ _ _ eq_refl
+            (gint3_qf (fun a b x y z => chi a x y z * chi b x y z) Sov bvalid overlap_pair_is_integral l Hl)).
+  intros x y z. apply (qf_rank1 (fun a => chi a x y z)).
+Qed.
+
+Theorem overlap_model_psd : psd_on bvalid Sov.
+Proof.
+  intros l Hl. apply (gint3_nonneg _ _ (fun x y z => Rle_0_sqr (lcf l x y z))
+                        (overlap_quadratic_form_is_integral l Hl)).
+Qed.
+
+Theorem overlap_model_symm : symm_on bvalid Sov.
+Proof.
+  apply (gint3_symm_on (fun a b x y z => chi a x y z * chi b x y z) Sov bvalid overlap_pair_is_integral).
+  intros. ring.
+Qed.
+
+Theorem overlap_model_schwarz (a b : bidx) : bvalid a -> bvalid b ->
+  Sov a b * Sov a b <= Sov a a * Sov b b.
+Proof. apply psd_on_schwarz; [exact overlap_model_symm | exact overlap_model_psd]. Qed.
+
+Theorem overlap_model_unit_bound (a b : bidx) : bvalid a -> bvalid b ->
+  Sov a a = 1 -> Sov b b = 1 -> Rabs (Sov a b) <= 1.
+Proof. apply psd_on_unit_bound; [exact overlap_model_symm | exact overlap_model_psd]. Qed.
+
+(* with the constant factors the assembled level applies (n = contraction norms): still PSD, and
+   the Schwarz bound in its scale-free form *)
+Corollary overlap_model_scaled_psd (n : bidx -> R) : psd_on bvalid (fun a b => n a * n b * Sov a b).
+Proof. apply psd_on_scale. exact overlap_model_psd. Qed.
+
+(* the subtype of valid basis functions; the overlap matrix on it IS a Gram matrix *)
+Definition vidx : Type := {a : bidx | bvalid a}.
+Definition SovV (a b : vidx) : R := Sov (proj1_sig a) (proj1_sig b).
+Definition TkinV (a b : vidx) : R := Tkin (proj1_sig a) (proj1_sig b).
+
+Lemma SovV_symm : symm SovV.
+Proof. intros a b. exact (overlap_model_symm _ _ (proj2_sig a) (proj2_sig b)). Qed.
+Lemma SovV_psd : psd SovV.
+Proof. exact (psd_on_sig bvalid Sov overlap_model_psd). Qed.
+
+Theorem overlap_model_is_gram :
+  exists (L2 : ipspace) (phi : vidx -> vec L2), forall a b, SovV a b = ip L2 (phi a) (phi b).
+Proof. exact (psd_symm_is_gram SovV SovV_symm SovV_psd). Qed.
